@@ -280,7 +280,11 @@ fn check_header(ctx: &Ctx, c: &HeaderCase, st: &mut Stats) {
 
 pub fn run(ctx: &'static Ctx) -> (&'static str, Value, Vec<&'static str>) {
     let thorough = ctx.tier.thorough();
-    let pairs: Vec<(f32, f32)> = vec![(2.0, 66.0), (2.0, 129.0), (0.5, 1.0), (100.0, 0.5), (2.8361, 2.0), (0.0, 0.0), (0.0, 7.5), (1e-3, -1e3), (-2.0, 66.0), (360.0 / 65535.0, 2.0)];
+    let pairs: Vec<(f32, f32)> = vec![
+        (2.0, 66.0), (2.0, 129.0), (0.5, 1.0), (100.0, 0.5), (2.8361, 2.0), (0.0, 0.0), (0.0, 7.5), (1e-3, -1e3), (-2.0, 66.0), (360.0 / 65535.0, 2.0),
+        // operational WSR-88D values and floating-point extremes (all finite)
+        (16.0, 128.0), (300.0, -60.5), (1.0, 8.0), (-0.0, 3.0), (f32::MIN_POSITIVE, 0.0), (1.0e-40, 2.0), (3.0e38, -3.0e38), (1.0, 3.0e38), (0.1, 0.3), (3.0, 1.0e-30), (-1.0e-3, 65535.0), (7.0, -0.0),
+    ];
     // 8-bit: all 256 raw values, per moment kind and (scale, offset)
     let mut cases: Vec<GateCase> = Vec::new();
     for kind in 3..10usize {
